@@ -226,7 +226,7 @@ def cmd_reference(args):
 
   Use {C.GREEN}{{source}}{C.RESET} to tag by data source (e.g., card holder):
   {C.DIM}[All Purchases]{C.RESET}
-  {C.DIM}match: *{C.RESET}
+  {C.DIM}match: true{C.RESET}
   {C.DIM}tags: {{source}}{C.RESET}                      {C.DIM}# → "alice-amex", "bob-chase", etc.{C.RESET}
 
   Use {C.GREEN}source{C.RESET} in match expressions to vary rules by data source:
@@ -408,12 +408,12 @@ tags: refund{C.RESET}
         section("Filter Primitives")
         primitives = [
             ('months', 'Number of months with transactions', 'filter: months >= 6'),
-            ('payments', 'Total number of transactions', 'filter: payments >= 12'),
+            ('payments', 'List of transaction amounts', 'filter: count(payments) >= 12'),
             ('total', 'Total spending for this merchant', 'filter: total > 1000'),
             ('cv', 'Coefficient of variation (consistency)', 'filter: cv < 0.3'),
             ('category', 'Merchant category', 'filter: category == "Subscriptions"'),
             ('subcategory', 'Merchant subcategory', 'filter: subcategory == "Streaming"'),
-            ('tags', 'Merchant tags (contains check)', 'filter: tags has "business"'),
+            ('tags', 'Merchant tags (contains check)', 'filter: "business" in tags'),
         ]
         for prim, desc, example in primitives:
             print(f"  {C.GREEN}{prim:<12}{C.RESET} {desc}")
@@ -439,9 +439,9 @@ tags: refund{C.RESET}
   {C.GREEN}by("day"){C.RESET}      Group transactions by day
 
   Examples:
-    {C.DIM}filter: sum(by("month")) > 100     # At least $100/month{C.RESET}
-    {C.DIM}filter: count(by("month")) >= 1    # Transaction every month{C.RESET}
-    {C.DIM}filter: avg(by("month")) > 50      # Averages over $50/month{C.RESET}
+    {C.DIM}filter: min(sum(by("month"))) > 100    # At least $100 in every active month{C.RESET}
+    {C.DIM}filter: max(count(by("month"))) >= 4   # Some month with 4+ transactions{C.RESET}
+    {C.DIM}filter: avg(sum(by("month"))) > 50     # Averages over $50/month{C.RESET}
 """)
 
         section("Comparison Operators")
@@ -451,15 +451,15 @@ tags: refund{C.RESET}
   {C.GREEN}>{C.RESET}   Greater than        {C.DIM}total > 500{C.RESET}
   {C.GREEN}>={C.RESET}  Greater or equal    {C.DIM}months >= 6{C.RESET}
   {C.GREEN}<{C.RESET}   Less than           {C.DIM}cv < 0.3{C.RESET}
-  {C.GREEN}<={C.RESET}  Less or equal       {C.DIM}payments <= 12{C.RESET}
+  {C.GREEN}<={C.RESET}  Less or equal       {C.DIM}months <= 12{C.RESET}
 """)
 
         section("Logical Operators")
         print(f"""
   {C.GREEN}and{C.RESET}   Both conditions       {C.DIM}months >= 6 and cv < 0.3{C.RESET}
-  {C.GREEN}or{C.RESET}    Either condition      {C.DIM}category == "Bills" or tags has "recurring"{C.RESET}
+  {C.GREEN}or{C.RESET}    Either condition      {C.DIM}category == "Bills" or "recurring" in tags{C.RESET}
   {C.GREEN}not{C.RESET}   Negation              {C.DIM}not category == "Income"{C.RESET}
-  {C.GREEN}has{C.RESET}   Contains (for tags)   {C.DIM}tags has "business"{C.RESET}
+  {C.GREEN}in{C.RESET}    Contains (for tags)   {C.DIM}"business" in tags{C.RESET}
 """)
 
         section("View Examples")
@@ -480,7 +480,7 @@ filter: category == "Subscriptions" and subcategory == "Streaming"
 # Business expenses for reimbursement
 [Business]
 description: Expenses to submit for reimbursement
-filter: tags has "business"
+filter: "business" in tags
 
 # Variable recurring (same merchant, different amounts)
 [Utilities]
@@ -490,7 +490,7 @@ filter: months >= 6 and cv >= 0.3 and cv < 1.0
 # High-frequency spending
 [Daily Habits]
 description: Places you visit frequently
-filter: payments >= 20 and total > 200{C.RESET}
+filter: count(payments) >= 20 and total > 200{C.RESET}
 """)
 
         section("Views vs Categories")
